@@ -34,7 +34,11 @@ SPEC = dict(
                 "still violates the property (known finding, reproduced on the real code): row loss when a job dedups at a coarser tag union than a "
                 "legacy/compacted input needs; hence the carve-out UniformLevel. C09_dedup_key_is_union / C09_dedup_union consume the regenerated fact "
                 "dedupKeyIsUnionOfInputTags (readTagColumnsFromParquetFiles accumulates over ALL inputs): the job's dedup key contains every input's declared "
-                "tag set, so no row of a TAGGED input collapses under a key coarser than its own file declares (nested and non-nested tag sets). C09_batches: SplitCandidateIntoBatches partitions the file "
+                "tag set, so no row of a TAGGED input collapses under a key coarser than its own file declares (nested and non-nested tag sets). "
+                "C09_manifest_drop_sites / C09_manifest_deleted_last: a manifest is dropped only when nothing depends on it — the upload-failure branch fires "
+                "only on the storage write's own error (fact uploadErrorOnlyFromStorageWrite; graceful cancellation is a fault kind of the model and the harness), "
+                "recovery ignores a manifest's age (fact staleManifestWarnOnly; harness advances a virtual clock over manifest.go / zero created_at), and a job "
+                "deletes its manifest only with the complete output present and all inputs gone. C09_batches: SplitCandidateIntoBatches partitions the file "
                 "list. DuckDB's dedup is the hypothesis DedupSpec (never an axiom); the model is diffed against the real Manager/Job/recovery "
                 "in-process under crash/kill/torn-upload/recovery-error injection, rows compared by DuckDB scans."),
     technique="Lean 4 invariant proof over an executable model of the compaction cycle (job program and manifest recovery regenerated from Job.Run / recoverManifest), differential correspondence against the real Manager/Job with crash and kill injection",
